@@ -79,6 +79,11 @@ def run(ctx):
                'the rounding draw uses `dtype=%s`: on a 2^-24 grid P(u < f) is not f, so the '
                'expected multiplicity is not r' % (dotted(dt[0]) if dt else '?'))
     rule_Q5(ctx)
+    from ..estimators import posterior_normalisation
+    ctx.rule('E', 'the returned log weights are reduced by the logsumexp of that very vector '
+             '(equal weights sum to one whatever container the points come back in)')
+    kn = posterior_normalisation(ctx, 'E')
+    ctx.require(kn >= 1, 'normalisation of the returned weights not found in posterior()')
     ctx.floor('L5', 8, 'view obligations')
     ctx.floor('Q5', 2, 'multiplicity obligations')
     have = {o.construct for o in ctx.obligations if o.rule == 'Q5'}
